@@ -14,7 +14,7 @@ from .rules_wrappers import (r_kernel_call_typestates, r05_1_route_identity, r14
 from .rules_indexkinds import r14_2_index_kinds, r06_4_matrix_fills
 from .rules_guards import r18_1_guarded_divisions
 from .rules_coincidence import r16_1_bounded_window, r03_5_limit_derivation, r03_2_strict_tests, r03_4_interpolate
-from .rules_symmetry import r07_1_symmetry
+from .rules_symmetry import r07_1_symmetry, add_kernel_symmetry
 
 
 def eng(ctx) -> SiblingEngine:
@@ -255,11 +255,18 @@ def _nonempty_aux(ctx, rule='R01.6') -> List[Ob]:
     t = "SpikeTrain.get_spikes_non_empty: a train without spikes is represented by [t_start, t_end] (one interval spanning the recording); otherwise the spikes themselves"
     ifs = [n for n in fi.node.body if isinstance(n, _ast.If)]
     good = False
-    if len(ifs) == 1 and len(ifs[0].body) == 1 and isinstance(ifs[0].body[0], _ast.Return) and ifs[0].orelse:
-        test = _ast.unparse(ifs[0].test).replace(' ', '')
-        rv = _ast.unparse(ifs[0].body[0].value).replace(' ', '')
-        ev = _ast.unparse(ifs[0].orelse[0].value).replace(' ', '') if isinstance(ifs[0].orelse[0], _ast.Return) else ''
-        good = test in ('len(self.spikes)<1', 'len(self.spikes)==0') and '[self.t_start,self.t_end]' in rv and ev == 'self.spikes'
+    from . import canon as C
+    if len(ifs) == 1 and len(ifs[0].body) == 1 and isinstance(ifs[0].body[0], _ast.Return):
+        try:
+            c = C.canon_cond(ifs[0].test, C.Env())
+            ln = C.atom(('call', 'len', (C.atom(('attr', ('n', 'self'), 'spikes')),)))
+            empty_tests = (C.mk_cmp('lt', ln, C.ONE), C.mk_cmp('eq', ln, C.ZERO), C.mk_cmp('le', ln, C.ZERO))
+            rest = ifs[0].orelse or fi.node.body[fi.node.body.index(ifs[0]) + 1:]
+            rv = _ast.unparse(ifs[0].body[0].value).replace(' ', '')
+            ev = _ast.unparse(rest[0].value).replace(' ', '') if rest and isinstance(rest[0], _ast.Return) else ''
+            good = c in empty_tests and '[self.t_start,self.t_end]' in rv and ev == 'self.spikes'
+        except C.CanonError:
+            good = False
     return [ok(rule, t, fi.loc(), construct='SpikeTrain.get_spikes_non_empty') if good else
             violation(rule, t, fi.loc(), key='pyspike/SpikeTrain.py::get_spikes_non_empty::aux-edges', detail=src[:300])]
 
@@ -466,7 +473,8 @@ P('C03', 'other',
 P('C04', 'other',
   [lambda c: _discrete_rules(c, ('order', 'dir')),
    lambda c: _sigma(c, [discrete_families(c).get('order'), discrete_families(c).get('dir')], 'R04.1', ('anti', 'swap')),
-   lambda c: [o for o in r14_2_index_kinds(c, 'R04.4', 'R06.1', 'R04.4') if o.rule == 'R04.4' and 'auto-threshold' not in o.key],
+   lambda c: [o for o in r14_2_index_kinds(c, 'R04.4', 'R04.6', 'R04.4') if o.rule in ('R04.4', 'R04.6') and 'auto-threshold' not in o.key
+              and 'spike_directionality.py' in o.where],
    lambda c: r06_4_matrix_fills(c, 'R04.3'),
    lambda c: _sib(c, [discrete_families(c).get('order'), discrete_families(c).get('dir')], 'R12.2'),
    lambda c: _proj(c, [discrete_families(c).get('order'), discrete_families(c).get('dir')], 'R05.2'),
@@ -489,6 +497,8 @@ P('C05', 'other',
    lambda c: only_rules(lambda cc: r14_2_index_kinds(cc, 'R14.2', 'R05.5', 'R14.3'), {'R05.5'})(c),
    lambda c: RM.r06_aggregation(c, 'R05.5', 'R05.5'),
    lambda c: RC.avrg_spec(c, 'DiscreteFunc', 'R05.6') + RC.avrg_spec(c, 'PieceWiseConstFunc', 'R05.6') + RC.avrg_spec(c, 'PieceWiseLinFunc', 'R05.6'),
+   lambda c: [Ob('R05.6', o.title, o.status, o.where, o.detail, o.key, o.construct, o.extra)
+              for cls in ('DiscreteFunc', 'PieceWiseConstFunc', 'PieceWiseLinFunc') for o in RC.integral_spec(c, cls, 'R05.6')],
    lambda c: [Ob('R05.7', o.title, o.status, o.where, o.detail, o.key, o.construct, o.extra)
               for o in r_kernel_call_typestates(c, ('R15.1', '', '')) if o.rule == 'R15.1']],
   "R05.1 route identity: on the fallback and interval paths the scalar is literally `profile_function(same trains, same settings)."
@@ -522,11 +532,14 @@ P('C07', 'other',
    lambda c: only_rules(lambda cc: _discrete_rules(cc, ('sync', 'order')), {'R07.3'})(c),
    lambda c: only_rules(_isi_rules, {'R01.3'})(c),
    lambda c: only_rules(lambda cc: r18_1_guarded_divisions(cc, 'R07.5', 'R07.5'), {'R07.5'})(c),
-   lambda c: only_rules(lambda cc: r_kernel_call_typestates(cc, ('', '', 'R07.2')), {'R07.2'})(c)],
+   lambda c: only_rules(lambda cc: r_kernel_call_typestates(cc, ('', '', 'R07.2')), {'R07.2'})(c),
+   lambda c: [Ob('R07.6', o.title, o.status, o.where, o.detail, o.key, o.construct, o.extra)
+              for o in r_kernel_call_typestates(c, ('R15.1', '', '')) if o.rule == 'R15.1']],
   "R07.1 train-swap symmetry of all ISI, SPIKE and SPIKE-Sync kernels (9 copies + helpers) as a proof by program symmetry: sigma(P) == P, so "
   "f(a,b) and f(b,a) are the same computation, bit for bit, for all inputs; R07.2 wrappers pass both trains' arrays in parameter order with the "
   "edges of a reconciled train; R07.3 every stored discrete entry lies between 0 (resp. -mp) and its multiplicity; R07.4 (=R01.3) the ISI value has "
-  "the |a-b|/max(a,b,.) shape with the same a, b; R07.5 empty-input conventions are literals behind zero tests."
+  "the |a-b|/max(a,b,.) shape with the same a, b; R07.5 empty-input conventions are literals behind zero tests; R07.6 the 'auto' threshold a "
+  "wrapper hands to a kernel is computed from all of its train parameters (both trains of a pair), so it cannot depend on the argument order."
   + NOT_DECIDED + "SPIKE in [0,1], finiteness, d(x,x) = 0 and ranges after normalisation (value reasoning).",
   ["lemmas L1, L4, L5"],
   {'R07.1': 15, 'R07.3': 15, 'R01.3': 20})
@@ -555,6 +568,7 @@ P('C09', 'other',
               for o in written_extent(_ensure_helpers(c), k, 'R09.4', 1)],
    lambda c: [o for o in RC.add_value_rules(c, _ensure_helpers(c), 'R09.5') if o.rule == 'R09.5'],
    lambda c: RC.mul_scalar_spec(c, 'R09.6'),
+   lambda c: add_kernel_symmetry(c, eng(c), 'R09.8', {'PieceWiseConstFunc', 'PieceWiseLinFunc'}),
    lambda c: _sib(c, [f for f in eng(c).families if f.wrapper.cls in ('PieceWiseConstFunc', 'PieceWiseLinFunc')], 'R12.2'),
    lambda c: _average_profile(c)],
   "R09.1 no add kernel and no class method stores through an alias of an argument (interprocedural effect analysis, both backends): the added "
@@ -562,7 +576,9 @@ P('C09', 'other',
   "kernel results are views of arrays allocated in the kernel), copy() shares nothing: in-place scaling can never reach another object; R09.3 "
   "add-merge idiom (strict comparisons, tie advances both: strictly increasing union of breakpoints); R09.4 written extent, slice-length agreement "
   "of the tail copies, len(x)=len(y)+1; R09.5 value rules at a new breakpoint (sum of piece values; own value + linear interpolation of the other "
-  "operand); R09.6 mul_scalar / copy / constructor shapes; sibling equality of the add kernels; average_profile route."
+  "operand); R09.6 mul_scalar / copy / constructor shapes; R09.8 operand-swap symmetry of the add kernels as a proof by program symmetry (sigma(P) == P "
+  "under x1,y1.. <-> x2,y2.., using the wrapper's asserted common end points and the loop-exit fact): f.add(g) and g.add(f) compute the same arrays, "
+  "and the two tail-copy branches are mirror images; sibling equality of the add kernels; average_profile route."
   + NOT_DECIDED + "pointwise equality and integral additivity as numbers; independence of the addition order up to rounding.",
   ["lemma L3"],
   {'R09.1': 30, 'R09.2': 15, 'R09.3': 40, 'R09.4': 20, 'R09.5': 15})
@@ -589,14 +605,18 @@ P('C11', 'other',
               for o in written_extent(_ensure_helpers(c), k, 'R11.1x', 0)],
    lambda c: RC.integral_spec(c, 'DiscreteFunc', 'R11.2'),
    lambda c: RC.avrg_spec(c, 'DiscreteFunc', 'R11.3'),
+   lambda c: RC.plottable_discrete_spec(c, 'R11.5'),
+   lambda c: add_kernel_symmetry(c, eng(c), 'R11.6', {'DiscreteFunc'}),
    lambda c: r13_1_no_param_written(c, 'R11.4', modules={'pyspike.DiscreteFunc'}) + r09_2_ownership(c, 'R11.4', {'DiscreteFunc'}),
    lambda c: _sib(c, [f for f in eng(c).families if f.wrapper.cls == 'DiscreteFunc'], 'R12.2')],
   "R11.0 add-merge idiom of the discrete add kernel (strict, tie advances both: one entry per distinct event time); R11.1 entry rules: tie sums "
   "value and multiplicity, otherwise the advancing operand's (x, y, mp) triple is copied with one index, start-edge entry copies its neighbour, "
   "extent and equal lengths of the three returned arrays; R11.2 integral: open-interval index selection (right/left), the same slice for values "
   "and multiplicities, edges excluded without interval, several intervals add up; R11.3 avrg = ratio, 1 when nothing is inside; R11.4 operand purity "
-  "and ownership; sibling equality of the discrete add kernel."
-  + NOT_DECIDED + "the smoothing window of get_plottable_data (a value algorithm).",
+  "and ownership; R11.5 the multiplicity-aware smoothing of get_plottable_data against its documented table (window test, wanted multiplicity, own-"
+  "contribution shortcut, whole/fractional neighbours on both sides, normalisation by the accumulated multiplicity); R11.6 operand-swap symmetry "
+  "of the add kernel; sibling equality of the discrete add kernel."
+  + NOT_DECIDED + "that the smoothing clauses compose to the documented mean for every distribution of multiplicities (value reasoning).",
   ["lemma L3"],
   {'R11.0': 20, 'R11.1': 15, 'R11.2': 4, 'R11.3': 3})
 
